@@ -221,7 +221,7 @@ class ProgGen:
             r = rng.random()
             if self.has("literals") and r < 0.15:
                 self.use("literals")
-                return I(rng.choice([0, 1, -1, 127, 128, -128, -129, 255, 256, 65535, 65536, 2 ** 31 - 1, 2 ** 31, 2 ** 64, -2 ** 64 + 5, 10 ** 30]))
+                return I(rng.choice([0, 1, -1, 63, 64, 65, 127, 128, -128, -129, 255, 256, 65535, 65536, 2 ** 31 - 1, 2 ** 31, 2 ** 64, -2 ** 64 + 5, 10 ** 30]))
             return I(rng.randint(-5, 40))
         if ty == "bytes":
             r = rng.random()
